@@ -732,15 +732,169 @@ PARTIAL – the general statement `∀ d, wfDoc d → roundTrip d = .ok l → ro
 (`≈` = same members under every key, numbers within half a unit of the declared digit) is not proved at
 document level.  Proved pieces: per-structure round trips (`degree_roundtrip`, `design_band_roundtrip`,
 `loss_coef_roundtrip`, `raman_coef_roundtrip`, `range_roundtrip`), the value bound (`fmt_error_bound`,
-`fmt_fixpoint`), and the two document-level idempotence theorems above.  Missing lemmas:
-(1) `forEachIn_congr`: lifting a per-params lookup equality (`∀ k, q.get? k = p.get? k`) through
-`onParams`/`forEachIn`/`onKey` to an extensional equality of documents;
+`fmt_fixpoint`), the two document-level idempotence theorems above, the lifting lemma
+`forEachIn_roundtrip` (= `forEachIn_congr`) with `onRoadmParams_roundtrip` / `withParams_roundtrip`, and
+the document-level per-converter round trips `range_roundtrip_doc` (every SI/Span entry),
+`degree_roundtrip_doc`, `loss_coef_roundtrip_doc` (every element of a topology).  Still missing:
+(1) `struct_compose`: the four topology converters act on disjoint members of the same `params`; composing
+their round trips needs that each one preserves the others' well-formedness and respects lookup
+equality (design bands and Raman coefficient also still need their `_doc` instance, same pattern);
 (2) `convertBack_convertDict_leaf`: `convertBack (precision? k) (convertDict (precisionD k) leaf)` is the
-leaf's normal form (`parseFloatBits (fmtBits b d)` = nearest double of the rounded decimal). -/
+leaf's normal form (`parseFloatBits (fmtBits b d)` = nearest double of the rounded decimal), and its
+commutation with the structural steps, which move leaves between members of different declared digits
+(`value` ↔ `loss_coef_value`, degree name ↔ `per_degree_pch_out_db`). -/
 theorem roundtrip_structure_partial :
     rtStable wfTopo = true ∧ rtStable wfEqpt = true ∧ rtStable wfServ = true ∧ rtStable wfSpec = true ∧
     rtStable wfSim = true := by
   refine ⟨?_, ?_, ?_, ?_, ?_⟩ <;> decide +kernel
+
+/-! ### document level: every entry of every list makes the structural round trip -/
+
+/-- **every SI / Span entry gets its range list back** (the general form of the F6 repair): for a
+library whose `key` list (`SI` or `Span`) has any number of entries in list form, converting to the
+dict form and back keeps the number and order of the entries, every member of every entry, and every
+other member of the library. -/
+theorem range_roundtrip_doc (key lk dk : String) (hne : lk ≠ dk) (doc : Dict) (l : List J)
+    (hget : doc.get? key = some (.arr l))
+    (hwf : ∀ ej ∈ l, ∃ (e : Dict) (a b c : J), ej = J.obj e ∧ e.get? lk = some (.arr [a, b, c]) ∧ e.get? dk = none) :
+    ∃ y q l', forEachIn doc key (rangeToYang lk dk) = .ok y ∧ forEachIn y key (rangeToLegacy lk dk) = .ok q ∧
+      q.get? key = some (.arr l') ∧ l'.length = l.length ∧ (∀ k, k ≠ key → q.get? k = doc.get? k) ∧
+      ∀ (i : Nat) (e : Dict), l[i]? = some (J.obj e) → ∃ e' : Dict, l'[i]? = some (J.obj e') ∧ ∀ k, e'.get? k = e.get? k := by
+  apply forEachIn_roundtrip doc key _ _ l (fun e e' => ∀ k, Dict.get? e' k = Dict.get? e k) hget
+  intro ej hej
+  obtain ⟨e, a, b, c, rfl, h1, h2⟩ := hwf ej hej
+  obtain ⟨y, e', hy, he', g1, g2, g3⟩ := range_roundtrip lk dk hne e a b c h1 h2
+  refine ⟨e, y, e', rfl, hy, he', ?_⟩
+  intro k
+  by_cases k1 : k = lk
+  · rw [k1, g1, h1]
+  · by_cases k2 : k = dk
+    · rw [k2, g2, h2]
+    · exact g3 k k1 k2
+
+/-- relation between a topology element and its image: same members, and the `params` member holds a
+dict related by `Rp` -/
+def ElemRel (Rp : Dict → Dict → Prop) (e q : Dict) : Prop :=
+  (∀ k, k ≠ "params" → q.get? k = e.get? k) ∧
+  (e.get? "params" = none → q.get? "params" = none) ∧
+  (∀ p : Dict, e.get? "params" = some (.obj p) → ∃ p' : Dict, q.get? "params" = some (.obj p') ∧ Rp p p')
+
+theorem onParams_roundtrip (f g : Dict → PyR Dict) (Rp : Dict → Dict → Prop) (e p : Dict)
+    (hp : e.get? "params" = some (.obj p)) (h : ∃ y q, f p = .ok y ∧ g y = .ok q ∧ Rp p q) :
+    ∃ y q, onParams e f = .ok y ∧ onParams y g = .ok q ∧ y.get? "type" = e.get? "type" ∧ y.has "params" = true ∧
+      ElemRel Rp e q := by
+  obtain ⟨yp, qp, hf, hg, hR⟩ := h
+  refine ⟨e.set "params" (.obj yp), (e.set "params" (.obj yp)).set "params" (.obj qp), ?_, ?_, ?_, ?_, ?_, ?_, ?_⟩
+  · simp [onParams, Dict.get, hp, asObj, hf, bind, Except.bind, pure, Except.pure]
+  · simp [onParams, Dict.get, asObj, hg, bind, Except.bind, pure, Except.pure]
+  · rw [Dict.get?_set_other _ _ _ _ (by decide)]
+  · exact (Dict.has_true_iff _ _).2 ⟨_, Dict.get?_set_same _ _ _⟩
+  · intro k hk
+    rw [Dict.get?_set_other _ _ _ _ (Ne.symm hk), Dict.get?_set_other _ _ _ _ (Ne.symm hk)]
+  · intro hn; rw [hn] at hp; cases hp
+  · intro p0 hp0
+    rw [hp] at hp0; cases hp0
+    exact ⟨qp, Dict.get?_set_same _ _ _, hR⟩
+
+theorem elemRel_refl (Rp : Dict → Dict → Prop) (hrefl : ∀ p, Rp p p) (e : Dict) : ElemRel Rp e e :=
+  ⟨fun _ _ => rfl, fun h => h, fun p hp => ⟨p, hp, hrefl p⟩⟩
+
+/-- lifting a params-level round trip through `onRoadmParams` (converters that look at ROADM params) -/
+theorem onRoadmParams_roundtrip (f g : Dict → PyR Dict) (Rp : Dict → Dict → Prop) (hrefl : ∀ p, Rp p p) (e : Dict)
+    (ht : e.has "type" = true)
+    (hp : e.get? "params" = none ∨ ∃ p : Dict, e.get? "params" = some (.obj p) ∧
+      (e.get? "type" = some (.str "Roadm") → ∃ y q, f p = .ok y ∧ g y = .ok q ∧ Rp p q)) :
+    ∃ y q, onRoadmParams f e = .ok y ∧ onRoadmParams g y = .ok q ∧ ElemRel Rp e q := by
+  obtain ⟨t, htt⟩ := (Dict.has_true_iff e "type").1 ht
+  have same : ∀ (w : Dict → PyR Dict), ((t == J.str "Roadm") && e.has "params") = false → onRoadmParams w e = .ok e := by
+    intro w hc
+    simp [onRoadmParams, isRoadmWithParams, Dict.get, htt, hc, bind, Except.bind, pure, Except.pure]
+  by_cases hc : ((t == J.str "Roadm") && e.has "params") = true
+  · simp only [Bool.and_eq_true, beq_iff_eq] at hc
+    obtain ⟨hroadm, hhas⟩ := hc
+    rcases hp with hp | ⟨p, hp, hfg⟩
+    · rw [(Dict.has_false_iff _ _).2 hp] at hhas; cases hhas
+    · obtain ⟨y, q, h1, h2, h3, h4, h5⟩ := onParams_roundtrip f g Rp e p hp (hfg (by rw [htt, hroadm]))
+      refine ⟨y, q, ?_, ?_, h5⟩
+      · simp [onRoadmParams, isRoadmWithParams, Dict.get, htt, hroadm, hhas, h1, bind, Except.bind, pure, Except.pure]
+      · rw [htt] at h3
+        simp [onRoadmParams, isRoadmWithParams, Dict.get, h3, hroadm, h4, h2, bind, Except.bind, pure, Except.pure]
+  · have hc' : ((t == J.str "Roadm") && e.has "params") = false := by simpa using hc
+    exact ⟨e, e, same f hc', same g hc', elemRel_refl Rp hrefl e⟩
+
+/-- lifting a params-level round trip through `withParams` (converters that look at every params) -/
+theorem withParams_roundtrip (f g : Dict → PyR Dict) (Rp : Dict → Dict → Prop) (e : Dict)
+    (hp : e.get? "params" = none ∨ ∃ p : Dict, e.get? "params" = some (.obj p) ∧ ∃ y q, f p = .ok y ∧ g y = .ok q ∧ Rp p q) :
+    ∃ y q, withParams e f = .ok y ∧ withParams y g = .ok q ∧ ElemRel Rp e q := by
+  rcases hp with hp | ⟨p, hp, hfg⟩
+  · have : e.has "params" = false := (Dict.has_false_iff _ _).2 hp
+    exact ⟨e, e, by simp [withParams, this, pure, Except.pure], by simp [withParams, this, pure, Except.pure],
+      ⟨fun _ _ => rfl, fun h => h, fun p0 hp0 => by rw [hp] at hp0; cases hp0⟩⟩
+  · obtain ⟨y, q, h1, h2, _, h4, h5⟩ := onParams_roundtrip f g Rp e p hp hfg
+    have : e.has "params" = true := (Dict.has_true_iff _ _).2 ⟨_, hp⟩
+    exact ⟨y, q, by simp [withParams, this, h1], by simp [withParams, h4, h2], h5⟩
+
+/-- **every per-degree target of every ROADM of a topology survives `convert_degree` followed by
+`convert_back_degree`**: same number and order of elements, every member of every element, and in every
+ROADM `params` the same value under every key (the three degree dicts entry for entry, in order). -/
+theorem degree_roundtrip_doc (doc : Dict) (l : List J) (hget : doc.get? "elements" = some (.arr l))
+    (hwf : ∀ ej ∈ l, ∃ e : Dict, ej = J.obj e ∧ e.has "type" = true ∧
+      (e.get? "params" = none ∨ ∃ p : Dict, e.get? "params" = some (.obj p) ∧
+        (e.get? "type" = some (.str "Roadm") → p.get? "per_degree_power_targets" = none ∧
+          WfKind p "per_degree_pch_out_db" ∧ WfKind p "per_degree_psd_out_mWperGHz" ∧
+          WfKind p "per_degree_psd_out_mWperSlotWidth"))) :
+    ∃ y q l', convertDegree doc = .ok y ∧ convertBackDegree y = .ok q ∧
+      q.get? "elements" = some (.arr l') ∧ l'.length = l.length ∧ (∀ k, k ≠ "elements" → q.get? k = doc.get? k) ∧
+      ∀ (i : Nat) (e : Dict), l[i]? = some (J.obj e) →
+        ∃ e' : Dict, l'[i]? = some (J.obj e') ∧ ElemRel (fun p p' => ∀ k, Dict.get? p' k = Dict.get? p k) e e' := by
+  apply forEachIn_roundtrip doc "elements" _ _ l _ hget
+  intro ej hej
+  obtain ⟨e, rfl, ht, hp⟩ := hwf ej hej
+  obtain ⟨y, q, h1, h2, h3⟩ := onRoadmParams_roundtrip degreeToYang degreeToLegacy
+    (fun p p' => ∀ k, Dict.get? p' k = Dict.get? p k) (fun _ _ => rfl) e ht (by
+      rcases hp with hp | ⟨p, hp, hw⟩
+      · exact Or.inl hp
+      · refine Or.inr ⟨p, hp, fun hr => ?_⟩
+        obtain ⟨a, b, c, d⟩ := hw hr
+        exact degree_roundtrip p a b c d)
+  exact ⟨e, y, q, rfl, h1, h2, h3⟩
+
+/-- params before and after the loss-list round trip: every other member equal; a per-frequency
+`loss_coef` comes back with the same two lists (members in the order frequency, value); a scalar one
+is untouched -/
+def LossRel (p p' : Dict) : Prop :=
+  (∀ k, k ≠ "loss_coef" → p'.get? k = p.get? k) ∧
+  (∀ lc : Dict, p.get? "loss_coef" = some (.obj lc) → ∃ fl vl, lc.get? "frequency" = some (.arr fl) ∧
+      lc.get? "value" = some (.arr vl) ∧ p'.get? "loss_coef" = some (.obj [("frequency", .arr fl), ("value", .arr vl)])) ∧
+  ((∀ lc, p.get? "loss_coef" ≠ some (.obj lc)) → p'.get? "loss_coef" = p.get? "loss_coef")
+
+/-- **every per-frequency loss list of every fibre of a topology survives** `convert_loss_coeff_list`
+followed by `convert_back_loss_coeff_list` (document level, every element) -/
+theorem loss_coef_roundtrip_doc (doc : Dict) (l : List J) (hget : doc.get? "elements" = some (.arr l))
+    (hwf : ∀ ej ∈ l, ∃ e : Dict, ej = J.obj e ∧
+      (e.get? "params" = none ∨ ∃ p : Dict, e.get? "params" = some (.obj p) ∧
+        ((p.get? "loss_coef_per_frequency" = none ∧ ∀ lc, p.get? "loss_coef" ≠ some (.obj lc)) ∨
+         (p.get? "loss_coef_per_frequency" = none ∧ ∃ (lc : Dict) (fl vl : List J), p.get? "loss_coef" = some (.obj lc) ∧
+            lc.get? "value" = some (.arr vl) ∧ lc.get? "frequency" = some (.arr fl) ∧ vl ≠ [] ∧ fl.length = vl.length)))) :
+    ∃ y q l', convertLossCoefList doc = .ok y ∧ convertBackLossCoefList y = .ok q ∧
+      q.get? "elements" = some (.arr l') ∧ l'.length = l.length ∧ (∀ k, k ≠ "elements" → q.get? k = doc.get? k) ∧
+      ∀ (i : Nat) (e : Dict), l[i]? = some (J.obj e) → ∃ e' : Dict, l'[i]? = some (J.obj e') ∧ ElemRel LossRel e e' := by
+  apply forEachIn_roundtrip doc "elements" _ _ l _ hget
+  intro ej hej
+  obtain ⟨e, rfl, hp⟩ := hwf ej hej
+  obtain ⟨y, q, h1, h2, h3⟩ := withParams_roundtrip lossCoefToYang lossCoefToLegacy LossRel e (by
+      rcases hp with hp | ⟨p, hp, hw⟩
+      · exact Or.inl hp
+      · refine Or.inr ⟨p, hp, ?_⟩
+        rcases hw with ⟨h0, hno⟩ | ⟨h0, lc, fl, vl, hlc, hv, hf, hne, hlen⟩
+        · refine ⟨p, p, lossCoefToYang_nonobj p hno, by simp [lossCoefToLegacy, h0, pure, Except.pure],
+            fun _ _ => rfl, fun lc hlc => absurd hlc (hno lc), fun _ => rfl⟩
+        · obtain ⟨y, q, a, b, c, d⟩ := loss_coef_roundtrip p lc fl vl h0 hlc hv hf hne hlen
+          refine ⟨y, q, a, b, d, ?_, fun hno => absurd hlc (hno lc)⟩
+          intro lc' hlc'
+          rw [hlc] at hlc'; cases hlc'
+          exact ⟨fl, vl, hf, hv, c⟩)
+  exact ⟨e, y, q, rfl, h1, h2, h3⟩
 
 /-! ### aliases -/
 
